@@ -300,18 +300,32 @@ def _discharge(ob, facts, goal, t0, timeout_ms, use_cvc5, both, small_terms, ris
         # budget, so a path that reaches this point may still be infeasible: 'unknown' is never a refutation.)
         ob.backend = "z3"
         r = z3.unknown
-        for budget, tactic in ((min(timeout_ms, 3000), False), (timeout_ms, True), (3 * timeout_ms, False)):
-            if tactic:
-                try:
+        s = None
+        # portfolio (every strategy is sound for 'unsat'; 'sat' is validated below): default core, the older simplex
+        # arithmetic cores, the z3 4.8.12 binary, the arithmetic-purifying tactic, then a long run of the default core
+        for kind, budget in (("default", min(timeout_ms, 3000)), ("arith2", min(timeout_ms, 5000)), ("arith1", min(timeout_ms, 5000)),
+                             ("cli", timeout_ms), ("tactic", timeout_ms), ("arith2", 3 * timeout_ms), ("default", 3 * timeout_ms)):
+            try:
+                if kind == "cli":
+                    s_c = _mk_solver(facts, ob.pc, goal, budget)
+                    if z3_cli_check(s_c.to_smt2(), budget) == "unsat":
+                        r, ob.backend = z3.unsat, "z3-4.8.12"
+                        break
+                    continue
+                if kind == "tactic":
                     s = z3.Then("simplify", "solve-eqs", "purify-arith", "smt").solver()
                     s.set("timeout", budget)
                     for f in list(facts) + list(ob.pc):
                         s.add(f)
-                except z3.Z3Exception:
-                    continue
-            else:
-                s = _mk_solver(facts, ob.pc, goal, budget)
-            r = s.check()
+                else:
+                    s = _mk_solver(facts, ob.pc, goal, budget)
+                    if kind == "arith2":
+                        s.set("smt.arith.solver", 2)
+                    elif kind == "arith1":
+                        s.set("smt.arith.solver", 1)
+                r = s.check()
+            except z3.Z3Exception:
+                continue
             if r != z3.unknown:
                 break
         if r == z3.unsat:
